@@ -984,6 +984,23 @@ fn main_check(ctx: &Ctx) -> Outcome {
         let total = sweep(&values, 1, "values", false);
         out.push_part(json!({"sweep":"value sweep (all 256 indices x 3 roles x 2 spellings, RGB components, plain codes)","tokens":values.len(),"max_tokens":1,"token_strings":total,"configurations":cfgs.len()}));
     }
+    // every sequence made of two attribute groups (e.g. two truecolor groups in one sequence), followed by a character
+    if multi_any {
+        let groups = vchecks::wincon_sys::sgr_groups();
+        let pairs: Vec<Tok> = groups
+            .iter()
+            .flat_map(|a| groups.iter().map(move |b| format!("{a};{b}")))
+            .map(|g| {
+                let mut t = sgr(&g);
+                t.bytes.push(b'v');
+                t.label = format!("CSI{g}mv");
+                t.text = true;
+                t
+            })
+            .collect();
+        let total = sweep(&pairs, 1, "two-groups", false);
+        out.push_part(json!({"sweep":"every sequence of two attribute groups + one character","tokens":pairs.len(),"max_tokens":1,"token_strings":total,"configurations":cfgs.len()}));
+    }
     if !quick {
         let rich = alphabet(multi_any, true);
         let total = sweep(&rich, 3, "rich", true);
